@@ -72,29 +72,41 @@ def scoring(ctx, cell):
         want_obs = atom(("call", "pandas.DataFrame", (atom(("mcall", scaler, "transform", (xv,), ())),), ()))
     else:
         want_obs = atom(("call", "pandas.DataFrame", (xv,), ()))
-    loc = {}
-    for e in tr.of("local"):
-        if e.func.qualname == U:
-            loc.setdefault(e.name, e)
-    no = loc.get("next_obs")
+    def appended_to(attr):
+        """(store event, element appended) of `self.attr = pd.concat([self.attr.iloc[1:, :], <element>])`"""
+        for e_ in tr.stores(attr):
+            a_ = e_.value.single_atom()
+            if a_ is not None and a_[0] == "call" and a_[1] == "pandas.concat" and a_[2]:
+                lst = a_[2][0].single_atom()
+                if lst is not None and lst[0] == "list" and len(lst[1]) == 2 and _drop_first(lst[1][0], A(attr)):
+                    return e_, lst[1][1]
+        return None, None
+
+    tw_ev, obs = appended_to("_test_window")
+    ctx.ob("FRM", U, "test window slides by one (oldest row dropped, new observation appended) [%s]" % L, tw_ev is not None, "", tw_ev)
     ctx.ob("FRM", U, "new observation is %s [%s]" % ("scaled with the reference scaler" if cell["online_scaling"] else "the raw data", L),
-           no is not None and no.value == want_obs, q.short(no.value, 100) if no is not None else "", no)
-    tw = tr.stores("_test_window")
-    ok = False
-    if tw and no is not None:
-        a = tw[0].value.single_atom()
-        if a is not None and a[0] == "call" and a[1] == "pandas.concat":
-            lst = a[2][0].single_atom()
-            ok = lst is not None and lst[0] == "list" and len(lst[1]) == 2 and lst[1][1] == no.value and _drop_first(lst[1][0], A("_test_window"))
-    ctx.ob("FRM", U, "test window slides by one (oldest row dropped, new observation appended) [%s]" % L, ok, "", tw[0] if tw else None)
-    np_ = loc.get("next_proj")
+           obs is not None and obs == want_obs, q.short(obs, 100) if obs is not None else "", tw_ev)
+    tp_ev, proj = appended_to("_test_pca_projection")
+    proj_name = None
+    if proj is not None:
+        pa_ = proj.single_atom()
+        if pa_ is not None and pa_[0] == "loopvar" and pa_[1] in tr.loops and pa_[2].startswith("$"):
+            # clipped in a per-component loop: the value before the loop is the projection itself
+            proj_name = pa_[2][1:]
+            proj = tr.loops[pa_[1]]["pre"].locs.get(proj_name)
+    proj0 = q.unmut(proj) if proj is not None else None
     okp = False
-    if np_ is not None and no is not None:
-        a = np_.value.single_atom()
+    if proj0 is not None and obs is not None:
+        a = proj0.single_atom()
         if a is not None and a[0] == "call" and a[1] == "pandas.DataFrame":
             t = a[2][0].single_atom()
-            okp = t is not None and t[0] == "mcall" and t[2] == "transform" and t[1] == A("_pca") and T.mentions(t[3][0], lambda z: z == no.value.single_atom())
-    ctx.ob("FRM", U, "new observation projected on the reference components [%s]" % L, okp, "", np_)
+            okp = t is not None and t[0] == "mcall" and t[2] == "transform" and t[1] == A("_pca") and T.mentions(t[3][0], lambda z: z == obs.single_atom())
+    ctx.ob("FRM", U, "new observation projected on the reference components and appended to the test scores [%s]" % L, okp, "", tp_ev)
+
+    class _NP:
+        value = proj0
+        name = proj_name
+    np_ = _NP() if proj0 is not None else None
     # scheduled scoring
     mon = [e for e in tr.calls() if e.callee[0] == "foreign" and e.callee[1] == "PageHinkley" and e.callee[2] == "update"]
     ctx.ob("ROLE", U, "monitor updated [%s]" % L, len(mon) == 1, "")
@@ -115,7 +127,8 @@ def scoring(ctx, cell):
         a0, a1 = q.unmut(dv[0].args[0]).single_atom(), q.unmut(dv[0].args[1]).single_atom()
         ok = a0 is not None and a1 is not None and a0[0] == "sub" and a1[0] == "sub" and a0[2] == a1[2] and \
             _rooted_in(a0[1], "_density_reference") and _is_fresh_dict_rooted(a1[1], tr)
-        ap = [e for e in tr.of("localmut") if e.name == "change_scores" and e.how == "method:append" and e.pc == dv[0].pc]
+        sname = sa[2][0].single_atom()[2][1:] if sa is not None and sa[0] == "call" and sa[2] and (sa[2][0].single_atom() or ("",))[0] == "loopvar" else None
+        ap = [e for e in tr.of("localmut") if e.name == sname and e.name is not None and e.how == "method:append" and e.pc == dv[0].pc]
         ok = ok and len(ap) == 1
     ctx.ob("FRM", U, "per-component score = %s(reference density, test density) of the same component [%s]" % (want_fn, L), ok, "", dv[0] if dv else None)
     # drift pairing
@@ -168,7 +181,7 @@ def intersection(ctx, cell, tr, np_):
         ctx.ob("AGREE-support", U, "test histogram of component i uses the support (lower[i], upper[i]) stored for component i and self.bins [%s]" % L, ok,
                "bin_range=%s" % (q.short(rng, 100) if rng is not None else None), e)
     # winsorising of the new projection
-    wm = [e for e in tr.of("localmut") if e.name == "next_proj" and e.how == "setitem"]
+    wm = [e for e in tr.of("localmut") if np_ is not None and e.name == np_.name and e.name is not None and e.how == "setitem"]
     ok = len(wm) == 2
     if ok:
         for e in wm:
